@@ -85,6 +85,19 @@ let show_res = function
 
 let reason_str = function Capacity -> "C" | Expired -> "E" | Invalidated -> "I"
 
+(* which patches the model assumes: coq/Cache/CacheOps.v impl_fixes, unless the
+   environment says otherwise (scratch-copy testing of a patched /repo:
+   VERIF_CACHE_FIXES="15,16,18,28,33" | "all" | "none") *)
+let fixes_of_env () =
+  match Sys.getenv_opt "VERIF_CACHE_FIXES" with
+  | None | Some "" -> impl_fixes
+  | Some "all" -> all_fixes
+  | Some "none" -> no_fixes
+  | Some s ->
+      let l = String.split_on_char ',' s in
+      let has x = List.mem x l in
+      { fix_f15 = has "15"; fix_f16 = has "16"; fix_f18 = has "18"; fix_f28 = has "28"; fix_f33 = has "33" }
+
 let rec drop n l = if n <= 0 then l else match l with [] -> [] | _ :: t -> drop (n - 1) t
 
 let run (toks : string list) : string =
@@ -97,7 +110,7 @@ let run (toks : string list) : string =
                   c_wheel = ni wheel; c_tick = n_of_int 1000000000;
                   c_listener = (lis = "1"); c_track = (pol <> "null");
                   c_opp = (opp = "1"); c_intro = (intro = "1");
-                  c_fix = impl_fixes } in
+                  c_fix = fixes_of_env () } in
       let st = ref (init p (ni now0)) in
       let seen = ref 0 in
       let outs = List.map (fun o ->
